@@ -11,6 +11,16 @@
 (* fail one of its own checks - which leaves the current phase (and skips  *)
 (* the body when it happens in setup; teardown always runs).  Operations   *)
 (* may also happen between tests ("o").  Final asks for the final report.  *)
+(* A tracked block may also be re-allocated (realloc): when that succeeds  *)
+(* the old block is gone and the result is a block freshly allocated by    *)
+(* whoever re-allocated it; when it fails (out of memory) the old block    *)
+(* stays exactly what it was.  The test output may keep a tracked copy of  *)
+(* a leak failure it is given (End(keep), as the JUnit output does): that  *)
+(* copy is allocated after the end of the test and belongs to no test.     *)
+(* Where a block lies in memory, and hence where its record sits in the    *)
+(* detector's hash table, is no part of this specification: the verdicts   *)
+(* must be the ones below for every placement (the generated programs      *)
+(* choose placements; see Gen_LeakPlugin).                                 *)
 (*                                                                         *)
 (* Two layers:                                                             *)
 (*  - implementation-shaped: every block carries the detector's period     *)
@@ -94,6 +104,21 @@ FreeOp(ph, id) ==
             /\ UNCHANGED <<expected, ignore, failures, aborted>>
        ELSE Skipped(ph)
     /\ UNCHANGED nextId
+\* realloc of an outstanding block.  ok: the block moves - the old block is released and the result is a block
+\* allocated now (a successful step is numbered like an allocation step);  ~ok: out of memory, nothing changes.
+ReallocOp(ph, id, ok) ==
+    /\ Common(ph)
+    /\ id \in Ids(blocks)
+    /\ nextId' = IF ok THEN nextId + 1 ELSE nextId
+    /\ IF Runs(ph)
+       THEN IF ok
+            THEN LET gone == { b \in blocks : b.id = id }
+                     nb == [id |-> nextId, period |-> period, owner |-> cur] IN
+                 /\ blocks' = (blocks \ gone) \cup {nb}
+                 /\ out' = [ran |-> TRUE, chk |-> Cardinality(Checking \ gone) + (IF period = "checking" THEN 1 ELSE 0), all |-> Cardinality(blocks)]
+                 /\ UNCHANGED <<expected, ignore, failures, aborted>>
+            ELSE /\ out' = Out(TRUE) /\ UNCHANGED <<blocks, expected, ignore, failures, aborted>>
+       ELSE Skipped(ph)
 \* EXPECT_N_LEAKS(n)
 ExpectOp(ph, n) ==
     /\ Common(ph) /\ ph # "o"
@@ -114,22 +139,26 @@ FailOp(ph) ==
                    ELSE Skipped(ph)
     /\ UNCHANGED nextId
 
-\* the test ends: post-test action of the plugin (as coded: count the blocks stamped "checking")
-End ==
+\* the test ends: post-test action of the plugin (as coded: count the blocks stamped "checking").
+\* keep: the test output keeps a tracked copy of a leak failure it is given - allocated while the failure is being
+\* reported, i.e. after the end of the test (a step with keep is numbered like an allocation step)
+End(keep) ==
     /\ cur # 0
     /\ LET leaks == Checking
-           lf == ~ignore /\ expected # Cardinality(leaks) /\ failures = failAtStart IN
+           lf == ~ignore /\ expected # Cardinality(leaks) /\ failures = failAtStart
+           copy == IF keep /\ lf THEN {[id |-> nextId, period |-> "enabled", owner |-> 0]} ELSE {} IN
        /\ failures' = failures + (IF lf THEN 1 ELSE 0)
        /\ out' = [ran |-> TRUE, leakfail |-> lf, listed |-> IF lf THEN Ids(leaks) ELSE {}, own |-> failures - failAtStart,
-                  failures |-> failures + (IF lf THEN 1 ELSE 0)]
+                  failures |-> failures + (IF lf THEN 1 ELSE 0), kept |-> Cardinality(copy)]
        /\ hist' = Append(hist, [t |-> cur, leakFailure |-> lf, listed |-> IF lf THEN Ids(leaks) ELSE {},
                                 \* ghost, in the words of the property statement:
                                 mine |-> { b.id : b \in { x \in blocks : x.owner = cur } },   \* allocated by this test, still outstanding
                                 expected |-> expected, ignore |-> ignore, ownFailed |-> failures # failAtStart])
-    /\ blocks' = { IF b.period = "checking" THEN [b EXCEPT !.period = "enabled"] ELSE b : b \in blocks }
+       /\ blocks' = { IF b.period = "checking" THEN [b EXCEPT !.period = "enabled"] ELSE b : b \in blocks } \cup copy
+    /\ nextId' = IF keep THEN nextId + 1 ELSE nextId
     /\ period' = "enabled" /\ expected' = 0 /\ ignore' = FALSE
     /\ cur' = 0 /\ phase' = "o" /\ aborted' = {} /\ nops' = 0
-    /\ UNCHANGED <<nextId, ntests, failAtStart>>
+    /\ UNCHANGED <<ntests, failAtStart>>
 
 \* FinalReport(0): everything still outstanding that was allocated while the plugin was active
 Final ==
@@ -139,11 +168,12 @@ Final ==
 
 OpPhases == IF cur = 0 THEN {"o"} ELSE Phases
 Next == \/ ntests < MaxTests /\ Begin
-        \/ End
+        \/ \E keep \in BOOLEAN : (keep => nextId <= MaxBlocks) /\ End(keep)
         \/ /\ nops < MaxOps
            /\ \E ph \in OpPhases :
                  \/ nextId <= MaxBlocks /\ AllocOp(ph)
                  \/ \E id \in Ids(blocks) : FreeOp(ph, id)
+                 \/ \E id \in Ids(blocks) : ReallocOp(ph, id, FALSE) \/ (nextId <= MaxBlocks /\ ReallocOp(ph, id, TRUE))
                  \/ \E n \in Expectations : ExpectOp(ph, n)
                  \/ IgnoreOp(ph)
                  \/ FailOp(ph)
